@@ -158,8 +158,12 @@ def compare_functions(ctx, tag, case_info, name, n1, n2):
             marker_lost = True
     elif x2 and not x1:
         gone = [t for t in raises1 if t not in raises2]
-        ctx.witness("changed:pytest.raises->xfail-marker" if gone else "added:xfail-marker",
-                    f"{tag} {name}: F2 is marked xfail(strict=True), F1 is not", info)
+        if not gone and case_info.get("unverified"):
+            # an unverified (state-dependent) assertion of F1 fails when the writer re-executes the parsed test
+            ctx.anomaly("after-filter-timeout:added:xfail-marker")
+        else:
+            ctx.witness("changed:pytest.raises->xfail-marker" if gone else "added:xfail-marker",
+                        f"{tag} {name}: F2 is marked xfail(strict=True), F1 is not", info)
         if gone:
             inner = gone[0].split(":\n", 1)[-1].strip()
             b1 = [inner if t == gone[0] else t for t in b1]
@@ -207,6 +211,22 @@ def compare_functions(ctx, tag, case_info, name, n1, n2):
                 extra.remove(bare)
                 lost.remove(t)
                 unbound.append(t)
+    # (a') an assert of F1 that does not hold when the writer re-executes it comes back wrapped in pytest.raises(AssertionError)
+    for t in list(lost):
+        n = node_of(t, nodes1)
+        if isinstance(n, ast.Assert):
+            wrapped = next((x for x in extra if genfiles.is_raises_block(node_of(x, nodes2)) == "AssertionError"
+                            and x.split(":\n", 1)[-1].strip() == t), None)
+            if wrapped is not None:
+                extra.remove(wrapped)
+                lost.remove(t)
+                if case_info.get("unverified"):
+                    ctx.anomaly("after-filter-timeout:changed:failing-assert->pytest.raises(AssertionError)")
+                else:
+                    ctx.witness(f"changed:failing-assert->pytest.raises(AssertionError):{genfiles.assert_kind(n)}",
+                                f"{tag} {name}: `{t[:100]}` of F1 does not hold when the writer re-executes the parsed test; F2 wraps it in pytest.raises(AssertionError)",
+                                {**info, "statement": t})
+                found = True
     # (b) root losses vs. cascade: a lost statement that reads a variable bound by an earlier lost statement is a consequence
     lost_vars: set = set()
     for t in unbound:  # an assert on a variable that F2 no longer binds is a consequence of the unbinding
@@ -297,6 +317,9 @@ def check_run(ctx, r):
         ctx.inconclusive_because(f"{r['tag']}: no roundtrip event (rc {res.get('rc')})")
         return
     case_info = {"case": c}
+    if genfiles.unverified_assertions(res):
+        case_info["unverified"] = True
+        ctx.cls("run:assertion-filter-execution-timed-out")
     err = rt.get("phase_error")
     if err and err["phase"] == "no-f1":
         ctx.anomaly("no-file-written")
